@@ -22,6 +22,8 @@ inductive KErr where
   | keyExists               -- GenerateAndStore: "key with the given ID already exists"
   | naming                  -- the caller's KIDNamingFunc failed
   | wrongKey                -- ECIES / JWE decryption with a key the message was not encrypted for
+  | duplicatedKey           -- gorm.ErrDuplicatedKey: `Save` of a row whose primary key is the zero value is an INSERT
+  | noKidHeader             -- DecryptJWE: "kid header not found"
   deriving Repr, DecidableEq, Inhabited
 
 def KErr.name : KErr → String
@@ -31,6 +33,8 @@ def KErr.name : KErr → String
   | .keyExists => "key-exists"
   | .naming => "naming-func-error"
   | .wrongKey => "wrong-key"
+  | .duplicatedKey => "duplicated-key"
+  | .noKidHeader => "no-kid-header"
 
 abbrev KRes (α : Type) := Except KErr α
 
@@ -97,6 +101,12 @@ def findRef (s : Store) (kid : String) : KRes KeyRef :=
   | some r => .ok r
   | none => .error .privateKeyNotFound
 
+/-- gorm `tx.Save(&KeyReference{KID: kid, …})`: an upsert on the primary key — except that a zero primary key
+    (kid = "") makes gorm issue a plain INSERT, which fails when the row exists. -/
+def saveRef (s : Store) (kid : String) (r : KeyRef) : KRes Store :=
+  if kid = "" ∧ (s.ref kid).isSome then .error .duplicatedKey
+  else .ok { s with refs := alPut s.refs kid r }
+
 /-- getPrivateKey (jwx.go): reference, then backend; spi.ErrNotFound is mapped to ErrPrivateKeyNotFound -/
 def getPrivateKey (s : Store) (kid : String) : KRes Nat :=
   match findRef s kid with
@@ -138,6 +148,7 @@ def decrypt (s : Store) (kid : String) (encFor : Nat) : KRes Nat :=
 
 /-- DecryptJWE: kid from the protected header, getPrivateKey, jwe.Decrypt -/
 def decryptJWE (s : Store) (kid : String) (encFor : Nat) : KRes Nat :=
+  if kid = "" then .error .noKidHeader else
   match getPrivateKey valid s kid with
   | .error e => .error e
   | .ok k => if k = encFor then .ok k else .error .wrongKey
@@ -152,7 +163,9 @@ def new (s : Store) (keyName : String) (naming : Option String) : Store × KRes 
     | none => (s1, .error .naming)
     | some kid =>
       let r : KeyRef := { keyName := keyName, version := "1" }
-      ({ s1 with refs := alPut s1.refs kid r, published := alPut s1.published kid k }, .ok (kid, r, k))
+      match saveRef s1 kid r with
+      | .error e => (s1, .error e)
+      | .ok s2 => ({ s2 with published := alPut s2.published kid k }, .ok (kid, r, k))
 
 /-- Delete: the reference row goes first; the backend entry is removed by key NAME; a backend failure is returned
     but the row stays deleted (no enclosing SQL transaction unless the caller brought one). -/
@@ -165,14 +178,16 @@ def delete (s : Store) (kid : String) : Store × KRes Unit :=
     | .ok s2 => (s2, .ok ())
     | .error e => (s1, .error e)
 
-/-- Link: upsert, nothing is validated here. Ghost: whatever was published for that kid is no longer claimed. -/
-def link (s : Store) (kid keyName version : String) : Store :=
-  { s with refs := alPut s.refs kid { keyName := keyName, version := version }, published := alDel s.published kid }
+/-- Link: `Save`, nothing is validated here. Ghost: whatever was published for that kid is no longer claimed. -/
+def link (s : Store) (kid keyName version : String) : Store × KRes Unit :=
+  match saveRef s kid { keyName := keyName, version := version } with
+  | .error e => (s, .error e)
+  | .ok s1 => ({ s1 with published := alDel s1.published kid }, .ok ())
 
 /-- Migrate: every backend key (name, "1") without a reference row with that key_name/version gets kid := name. -/
 def migrateOne (s : Store) (name : String) : Store :=
   if s.refs.any (fun p => p.2.keyName == name && p.2.version == "1") then s
-  else { s with refs := alPut s.refs name { keyName := name, version := "1" }, published := alDel s.published name }
+  else (link s name name "1").1     -- a failing Save is logged and skipped
 
 def migrate (s : Store) : Store := (s.backend.map (·.1)).foldl migrateOne s
 
@@ -187,7 +202,7 @@ inductive Op where
 
 def step (s : Store) : Op → Store
   | .new n f => (new s n f).1
-  | .link k n v => link s k n v
+  | .link k n v => (link s k n v).1
   | .delete k => (delete valid s k).1
   | .migrate => migrate s
 
